@@ -70,8 +70,8 @@ func (c15) Cases(tier string, emit func(string, interface{})) {
 				for _, kb := range []string{"type", "table"} {
 					for f := range c15Descs {
 						for g := range c15Descs {
-							if tier != "thorough" && kb == "table" && nb != "U" {
-								continue
+							if tier != "thorough" && kb == "table" && nb != "U" && !(f == 0 && g <= 5) {
+								continue // quick keeps a few colliding-name table models (primitive and reference fields)
 							}
 							if k1 == "type" && (c15Descs[f] == "T2.x" || c15Descs[g] == "T2.x") {
 								continue // Type.field is the foreign-key idiom of tables
